@@ -234,6 +234,13 @@ func (s *pipeStream[T]) Next(ctx context.Context) (T, error) {
 	case item := <-s.c:
 		return item, nil
 	case <-s.senderDone:
+		// The sender closing does not mean the buffer is empty: deliver what was sent before the
+		// close before reporting the end.
+		select {
+		case item := <-s.c:
+			return item, nil
+		default:
+		}
 		err := *s.senderErr
 		if err != nil {
 			return zero, err
